@@ -1962,20 +1962,23 @@ class _Duration(Duration):
         cls, delta: timedelta, *, _1_microsecond: timedelta = timedelta(microseconds=1)
     ) -> "_Duration":
         total_ms = delta // _1_microsecond
-        seconds = int(total_ms / 1e6)
-        nanos = int((total_ms % 1e6) * 1e3)
-        return cls(seconds, nanos)
+        # integer arithmetic only: floats lose microseconds beyond 2**53 and
+        # give seconds and nanos of opposite sign for negative fractional spans
+        sign = -1 if total_ms < 0 else 1
+        seconds, micros = divmod(abs(total_ms), 10**6)
+        return cls(sign * seconds, sign * micros * 1000)
 
     def to_timedelta(self) -> timedelta:
         return timedelta(seconds=self.seconds, microseconds=self.nanos / 1e3)
 
     @staticmethod
     def delta_to_json(delta: timedelta) -> str:
-        parts = str(delta.total_seconds()).split(".")
-        if len(parts) > 1:
-            while len(parts[1]) not in (3, 6, 9):
-                parts[1] = f"{parts[1]}0"
-        return f"{'.'.join(parts)}s"
+        total_us = delta // timedelta(microseconds=1)
+        sign = "-" if total_us < 0 else ""
+        seconds, micros = divmod(abs(total_us), 10**6)
+        if micros % 1000 == 0:
+            return f"{sign}{seconds}.{micros // 1000:03d}s"
+        return f"{sign}{seconds}.{micros:06d}s"
 
 
 class _Timestamp(Timestamp):
